@@ -759,10 +759,21 @@ def run_execute(scenario, scratch):
     for i, (code, delay) in enumerate(zip(scenario["codes"], scenario["delays"])):
         stamp = os.path.join(scratch, f"{scenario['sid']}.{i}")
         commands.append(["sh", "-c", f"sleep {delay}; date +%s%N > {stamp}; exit {code}"])
+    shared = os.path.join(scratch, f"{scenario['sid']}.shared")
+    if scenario.get("repeat"):
+        # the same command line n times, each call leaving a line in one file (a retry, an appending tool): each is a call
+        # of its own; run one after another the k-th call exits with k
+        commands = [["sh", "-c", f"echo x >> {shared}; exit $(wc -l < {shared})"] for _ in commands]
     kwargs = {"cpus": scenario["k"], "verbose": bool(scenario.get("verbose"))}
     if scenario.get("timeout") is not None:
         kwargs["timeout"] = scenario["timeout"]
     info, results = _outcome(lambda: parallel_execute(commands, **kwargs))
+    if scenario.get("repeat"):
+        try:
+            with open(shared, encoding="ascii") as handle:
+                info["ran"] = len(handle.read().splitlines())
+        except OSError:
+            info["ran"] = 0
     if info["outcome"] == "returned":
         info["returned"] = _describe_return(results)
         info["codes"] = list(results) if isinstance(results, list) else None
